@@ -187,8 +187,13 @@ static void COCSdoTransferFinalize(CO_CSDO *csdo)
         /* Stop the timeout supervision of the finished transfer */
         if (csdo->Tfer.Tmr >= 0) {
             (void)COTmrDelete(&(csdo->Node->Tmr), csdo->Tfer.Tmr);
+            csdo->Tfer.Tmr = -1;
         }
 
+        /* the application is informed exactly once: when it resets the
+         * node from inside the callback, this transfer has ended already
+         */
+        csdo->Tfer.Call = NULL;
         if (call != NULL) {
             call(csdo, idx, sub, code);
         }
@@ -206,9 +211,13 @@ static void COCSdoTransferFinalize(CO_CSDO *csdo)
         csdo->Tfer.Buf_Idx = 0;
         csdo->Tfer.TBit = 0;
 
-        /* Release SDO client for next request */
+        /* Release SDO client for next request (a reset from inside the
+         * callback has set the state the client starts with already)
+         */
         csdo->Frm   = NULL;
-        csdo->State = CO_CSDO_STATE_IDLE;
+        if (csdo->State == CO_CSDO_STATE_BUSY) {
+            csdo->State = CO_CSDO_STATE_IDLE;
+        }
     }
 }
 
